@@ -128,7 +128,16 @@ def same_result(a, b):
         if err:
             return f'model {i}: {err}'
     for t in ('t-test',):
-        ta, tb = a.test_all(t), b.test_all(t)
+        try:
+            ta = a.test_all(t)
+        except Exception as exc_a:       # e.g. a result of a single RDM (dof 0) has no t-tests: then neither has its copy
+            try:
+                b.test_all(t)
+            except Exception as exc_b:
+                if type(exc_a) is type(exc_b):
+                    continue
+            return f'test outputs: the original raises {type(exc_a).__name__}, the loaded object does not'
+        tb = b.test_all(t)
         if not all(np.array_equal(np.asarray(x), np.asarray(y), equal_nan=True) for x, y in zip(ta, tb)):
             return 'test outputs differ'
     return None
@@ -247,7 +256,8 @@ def make_model(rng, feats, kind=None):
 
 def make_result(rng, feats):
     n_cond = int(rng.integers(4, 7))
-    data = RDMs(gen.rdm_vectors(rng, int(rng.integers(3, 6)), n_cond, 'pos'))
+    # (a single data RDM -- one subject -- gives a result with dof 0: a value like any other)
+    data = RDMs(gen.rdm_vectors(rng, int(gen.pick(rng, [1, 3, 4, 5])), n_cond, 'pos'))
     kinds = ['fixed'] + [gen.pick(rng, ['fixed', 'weighted', 'select']) for _ in range(int(rng.integers(0, 3)))]
     if 'many_models' in feats:
         kinds = ['fixed'] * 12
